@@ -41,7 +41,8 @@ class _D(Domain):
     loop_bound = 1
 
     def resolve_call(self, st, call, walker):
-        return None
+        # private helpers extracted from the analysed code are followed
+        return walker.resolve_helper(st, call)
 
     def resolve_setter(self, st, target, walker):
         return None
@@ -118,6 +119,30 @@ def _get_default(call, key, default):
     return None
 
 
+def _helper_value(program, f, elt, var):
+    """Canonical value of `helper(var)` for a private module-level helper
+    with straight-line body (locals substituted), else None."""
+    if not (isinstance(elt, ast.Call) and len(elt.args) == 1 and isinstance(
+            elt.args[0], ast.Name) and elt.args[0].id == var
+            and not elt.keywords):
+        return None
+    r = program.lookup(f.module, dotted(elt.func) or '')
+    if not r or r[0] != 'func':
+        return None
+    g = r[1]
+    w = Walker(program, _D(program))
+    exits = [e for e in w.run(g, None) if e.kind == 'return']
+    if len(exits) != 1 or exits[0].payload is None:
+        return None
+    p0 = g.params()[0]
+    t = exits[0].payload.text
+
+    class R(ast.NodeTransformer):
+        def visit_Name(self, n):
+            return ast.Name(var, n.ctx) if n.id == p0 else n
+    return norm(R().visit(ast.parse(t, mode='eval').body))
+
+
 def check_populate(program, rep):
     f = program.func('desper.model.world', 'populate_world_from_dict')
     site = f.where
@@ -186,8 +211,47 @@ def check_populate(program, rep):
             appends = [x for x in calls if isinstance(
                 x.sym.node.func, ast.Attribute) and x.sym.node.func.attr
                 == 'append' and isinstance(x.sym.node.func.value, ast.Name)]
+            comp_def = None
             if cn.args and isinstance(cn.args[0], ast.Starred) and isinstance(
                     cn.args[0].value, ast.Name):
+                lst0 = cn.args[0].value.id
+                for x in tr:
+                    if x.kind == 'local' and isinstance(
+                            x.target, ast.Name) and x.target.id == lst0 \
+                            and isinstance(x.sym.node, (ast.ListComp,
+                                                        ast.GeneratorExp)):
+                        comp_def = x.sym.node
+            elif cn.args and isinstance(cn.args[0], ast.Starred) and \
+                    isinstance(cn.args[0].value, (ast.ListComp,
+                                                  ast.GeneratorExp)):
+                comp_def = cn.args[0].value
+            if comp_def is not None:
+                # components built by a comprehension over the listed dicts
+                from rules.evrules import beta_reduce
+                ok_c = False
+                if len(comp_def.generators) == 1 and not comp_def.generators[
+                        0].ifs and norm(comp_def.generators[0].iter) \
+                        == comps_iter and isinstance(
+                            comp_def.generators[0].target, ast.Name):
+                    x = comp_def.generators[0].target.id
+                    cls0 = type('C', (), {'module': f.module})()
+                    elt = beta_reduce(program, cls0, comp_def.elt)
+                    # a helper with a local for the factory: inline by walking
+                    got = norm(elt)
+                    want_c = (f"{x}['type'](*{x}.get('args', []), "
+                              f"**{x}.get('kwargs', {{}}))")
+                    if got == want_c:
+                        ok_c = True
+                    else:
+                        got2 = _helper_value(program, f, comp_def.elt, x)
+                        ok_c = got2 == want_c
+                seen['comp'] += 1
+                if not ok_c:
+                    bad = bad or (c.node, 'the components are not built as '
+                                  'type(*args, **kwargs) for every listed '
+                                  'component dict, in order')
+            elif cn.args and isinstance(cn.args[0], ast.Starred) \
+                    and isinstance(cn.args[0].value, ast.Name):
                 lst = cn.args[0].value.id
                 appends = [x for x in appends
                            if x.sym.node.func.value.id == lst]
@@ -220,43 +284,68 @@ def check_transform(program, rep):
     site = call.where
     ps = call.params()
     body = ast.unparse(call.node)
-    # ordering: both _apply_transformers loops before populate
-    applies = [n for n in ast.walk(call.node) if isinstance(n, ast.Call)
-               and norm(n.func) == 'self._apply_transformers']
-    pops = [n for n in ast.walk(call.node) if isinstance(n, ast.Call)
-            and (dotted(n.func) or '').endswith('populate_world_from_dict')]
-    loads = [n for n in ast.walk(call.node) if isinstance(n, ast.Assign)
-             and isinstance(n.value, ast.Call)
-             and dotted(n.value.func) == 'json.load']
-    ok = len(applies) == 2 and len(pops) == 1 and len(loads) == 1 and all(
-        a.lineno < pops[0].lineno for a in applies)
-    wd = norm(loads[0].targets[0]) if loads else None
-    if ok:
-        ok = [norm(x) for x in pops[0].args] == [ps[2], wd]
-    fors = [n for n in ast.walk(call.node) if isinstance(n, ast.For)]
-    iters = sorted(norm(n.iter) for n in fors)
-    want_iters = sorted([f"{wd}.get('processors', [])",
-                         f"{wd}.get('entities', [])"])
-    comp_loops = [n for n in fors if "get('components', [])" in norm(n.iter)]
-    ok = ok and all(w_ in iters for w_ in want_iters) and len(comp_loops) == 1
-    if ok:
-        for a in applies:
-            args = [norm(x) for x in a.args]
-            if args[:2] != [ps[1], ps[2]] or len(args) != 3:
-                ok = False
-            # third argument: the loop variable of the enclosing loop, i.e.
-            # the dict inside world_dict itself (an alias, not a copy)
-            encl = [n for n in fors if a in list(ast.walk(n))]
-            if not any(norm(n.target) == args[2] for n in encl):
-                ok = False
+    # path based (helpers and generator helpers followed): every processor
+    # dict and every component dict goes through _apply_transformers, as
+    # itself, before the same description is populated
+    class _One(_D):
+        def for_counts(self, st, node, itersym):
+            return [1]
+
+        def resolve_call(self, st, call, walker):
+            r = walker.resolve_helper(st, call)
+            if r is not None and r[0].name == '_apply_transformers':
+                return None
+            return r
+    w = Walker(program, _One(program))
+    exits = [e for e in w.run(call, c) if e.kind != 'raise']
+    ok = bool(exits)
+    why = ''
+    for ex in exits:
+        tr = ex.state.trace
+        wd = None
+        for e in tr:
+            if e.kind == 'local' and isinstance(e.sym.node, ast.Call) \
+                    and dotted(e.sym.node.func) == 'json.load':
+                wd = e.sym.text
+        if wd is None:
+            ok, why = False, 'the description is not read with json.load'
+            continue
+        procs_iter = f"{wd}.get('processors', [])"
+        ents_iter = f"{wd}.get('entities', [])"
+        comps_iter = (f"{loopvar_name(ents_iter, 0)}"
+                      ".get('components', [])")
+        want = {loopvar_name(procs_iter, 0), loopvar_name(comps_iter, 0)}
+        applies = [(i, e) for i, e in enumerate(tr) if e.kind == 'call'
+                   and isinstance(e.sym.node, ast.Call)
+                   and norm(e.sym.node.func) == 'self._apply_transformers']
+        got = set()
+        for i, e in applies:
+            a = [norm(x) for x in e.sym.node.args]
+            if len(a) != 3 or a[:2] != [ps[1], ps[2]]:
+                ok, why = False, f'_apply_transformers called with {a}'
+            else:
+                got.add(a[2])
+        pops = [(i, e) for i, e in enumerate(tr) if e.kind == 'call'
+                and isinstance(e.sym.node, ast.Call) and (dotted(
+                    e.sym.node.func) or '').endswith(
+                        'populate_world_from_dict')]
+        if got != want:
+            ok, why = False, (f'transformers are applied to {sorted(got)}; '
+                              f'the description lists {sorted(want)}')
+        if len(pops) != 1 or [norm(x) for x in pops[0][1].sym.node.args] != [
+                ps[2], wd]:
+            ok, why = False, 'the transformed description is not the one ' \
+                'that is populated'
+        elif applies and pops[0][0] < max(i for i, _ in applies):
+            ok, why = False, 'populate runs before every dict was transformed'
     rep.check(ok, 'C15.transform', site, '__call__: transformers, then '
               'populate', 'every processor and component dict of the loaded '
               'description goes through the transformers, then the same '
               'description is populated',
               'WorldFromFileTransformer.__call__ does not apply the '
               'transformers to every processor and component dict of the '
-              'description it then populates (a dict is skipped, copied, or '
-              'the order is wrong)', line=call.node.lineno)
+              f'description it then populates ({why})',
+              line=call.node.lineno)
     ap = c.methods.get('_apply_transformers')
     aps = ap.params()
     fors = [n for n in ast.walk(ap.node) if isinstance(n, ast.For)]
@@ -471,35 +560,46 @@ def check_markers(program, rep):
                   'else passes through unchanged', bad[1] if bad else '',
                   line=getattr(bad[0], 'lineno', mf.lineno) if bad
                   else mf.lineno)
-        # writeback into the passthrough dict's own containers
+        # writeback into the passthrough dict's own containers (path based,
+        # helpers followed)
         pt = f.params()[3]
-        env = {}
-        for s in f.node.body:
-            if isinstance(s, ast.Assign) and isinstance(s.targets[0],
-                                                        ast.Name):
-                env[s.targets[0].id] = s.value
-        ok_args = ok_kw = False
-        for s in ast.walk(f.node):
-            if isinstance(s, ast.Assign) and isinstance(
-                    s.targets[0], ast.Subscript) and isinstance(
-                        s.targets[0].slice, ast.Slice) and isinstance(
-                            s.targets[0].value, ast.Name):
-                src = env.get(s.targets[0].value.id)
-                if src is not None and norm(src) == f"{pt}.get('args', [])" \
-                        and norm(s.value) == (
-                            f'map({mf.name}, {s.targets[0].value.id})'):
-                    ok_args = True
-            if isinstance(s, ast.Call) and isinstance(s.func, ast.Attribute) \
-                    and s.func.attr == 'update' and isinstance(
-                        s.func.value, ast.Name):
-                src = env.get(s.func.value.id)
-                nm = s.func.value.id
-                if src is not None and norm(src) == \
-                        f"{pt}.get('kwargs', {{}})" and s.args and norm(
-                            s.args[0]) == (f'{{k: {mf.name}(v) for k, v in '
-                                           f'{nm}.items()}}'):
-                    ok_kw = True
-        rep.check(ok_args and ok_kw, 'C15.writeback', f.where,
+        w2 = Walker(program, _D(program))
+        exits2 = [e for e in w2.run(f, None) if e.kind != 'raise']
+        ok_all = bool(exits2)
+        for ex in exits2:
+            ok_args = ok_kw = False
+            for e in ex.state.trace:
+                if e.kind == 'store' and e.target is not None:
+                    tn = e.target.node
+                    if isinstance(tn, ast.Subscript) and isinstance(
+                            tn.slice, ast.Slice) and norm(tn.value) == \
+                            f"{pt}.get('args', [])" and norm(e.sym.node) == \
+                            f"map({mf.name}, {pt}.get('args', []))":
+                        ok_args = True
+                    if norm(tn) == f"{pt}['args']" and norm(e.sym.node) in (
+                            f"list(map({mf.name}, {pt}.get('args', [])))",
+                            f"[{mf.name}(a) for a in {pt}.get('args', [])]"):
+                        ok_args = True
+                if e.kind == 'call' and isinstance(e.sym.node, ast.Call) \
+                        and norm(e.sym.node.func) == \
+                        f"{pt}.get('kwargs', {{}}).update" \
+                        and len(e.sym.node.args) == 1:
+                    a0 = e.sym.node.args[0]
+                    if isinstance(a0, ast.DictComp) and len(
+                            a0.generators) == 1 and norm(
+                                a0.generators[0].iter) == \
+                            f"{pt}.get('kwargs', {{}}).items()" \
+                            and isinstance(a0.generators[0].target,
+                                           ast.Tuple) \
+                            and not a0.generators[0].ifs:
+                        kk, vv = [norm(x)
+                                  for x in a0.generators[0].target.elts]
+                        if norm(a0.key) == kk and norm(a0.value) == \
+                                f'{mf.name}({vv})':
+                            ok_kw = True
+            if not (ok_args and ok_kw):
+                ok_all = False
+        rep.check(ok_all, 'C15.writeback', f.where,
                   'args_list[:] = map(..); kwargs_map.update(..)',
                   "mapped arguments are written back into the passthrough "
                   "dict's own list and dict, in place",
